@@ -5,7 +5,8 @@ import re, sys
 
 LIBC = {'strchr','strcmp','strlen','strncmp','strcpy','strncpy','strcat','memcmp','isspace','isdigit','isalpha','isalnum',
         'isupper','islower','toupper','tolower','isxdigit','sprintf','snprintf','sscanf','malloc','free','abort','exit','strrchr',
-        'realloc','calloc','memchr','strtoull','strtol','atoi','puts','printf','fprintf','strcasecmp','strdup'}
+        'realloc','calloc','memchr','strtoull','strtol','atoi','puts','printf','fprintf','strcasecmp','strdup',
+        'memset','memcpy','memmove','strstr','strncat','strtod','atol','strtoul','fputs','fputc','putchar','fflush','strncasecmp','strpbrk','strspn','strcspn','fabs','ceil','floor','pow','sqrt','vsnprintf','vsprintf','vfprintf'}
 
 class T:  # type node
     def __init__(s, k, **kw): s.k=k; s.__dict__.update(kw)
